@@ -111,7 +111,12 @@ class FlagList(Signature):
         if self.__flags__ is None:  # pragma: no cover
             raise AttributeError("Error: __flags__ not set!")
 
-        self._flags.append(self.__flags__(val))
+        try:
+            self._flags.append(self.__flags__(val))
+
+        except ValueError:
+            # an algorithm id this implementation does not know: keep the number (RFC 4880 13.2: ignore, do not reject)
+            self._flags.append(val)
 
     @flags.register(bytearray)
     def flags_bytearray(self, val):
@@ -537,7 +542,11 @@ class RevocationKey(Signature):
     @algorithm.register(int)
     @algorithm.register(PubKeyAlgorithm)
     def algorithm_int(self, val):
-        self._algorithm = PubKeyAlgorithm(val)
+        try:
+            self._algorithm = PubKeyAlgorithm(val)
+
+        except ValueError:
+            self._algorithm = val
 
     @algorithm.register(bytearray)
     def algorithm_bytearray(self, val):
@@ -796,7 +805,12 @@ class ReasonForRevocation(Signature):
     @code.register(int)
     @code.register(RevocationReason)
     def code_int(self, val):
-        self._code = RevocationReason(val)
+        try:
+            self._code = RevocationReason(val)
+
+        except ValueError:
+            # private / experimental reason codes (100-110) and codes defined later: keep the number
+            self._code = val
 
     @code.register(bytearray)
     def code_bytearray(self, val):
